@@ -458,7 +458,7 @@ func c17Run(c *Ctx) {
 		bound = 3
 	}
 	c.Bound("preemptions", fmt.Sprint(bound))
-	c.Bound("threads", "2 (one scenario with 3)")
+	c.Bound("threads", "2 (two scenarios with 3)")
 	// the auxiliary free-running pass runs beside the exploration (another process, other cores)
 	raceDone := make(chan c17RaceResult, 1)
 	if c.Shard == c.N-1 {
